@@ -364,6 +364,10 @@ class Kinds:
                         size = b[2] if b[0] == "bin" and b[1] in ("+", "-") and b[3][0] == "const" else b
                         if not ok and ka[0] == "NodeIdx" and count_of(size) is not None and count_of(size) == ka[1]:
                             ok = True
+                        # ... nor is a dataset row id tested against the extent of the pre-computed matrix it indexes
+                        if not ok and ka == ROWID and size[0] == "idx" and size[1][0] == "attr" and size[1][2] == "shape" \
+                                and self._is_predist(size[1][1]):
+                            ok = True
                         report("K4", ev, show(t), ok,
                                "" if ok else f"orders the nominal index '{show(a)}' ({kshow(ka)})")
                         return
